@@ -3,6 +3,18 @@
 import json, os
 ROOT = os.path.dirname(os.path.dirname(os.path.abspath(__file__)))
 rows = []; n = c = 0
+import collections
+rounds = collections.defaultdict(lambda: [0, 0, 0])  # kept, missed by the first run of the own check, caught now by own check
+def round_of(p, i):
+    if i <= 2: return 1
+    if p in ("C09", "C10", "C18"):
+        return 3 if i <= 5 else (4 if i <= 8 else 6)
+    if p in ("C06", "C08", "C11"):
+        return 2 if i <= 5 else (4 if i <= 8 else 5)
+    if i <= 5: return 2
+    if i <= 8: return 3
+    if i <= 11: return 4
+    return 6 if p in ("C03", "C04", "C15") else 5
 def key(d):
     p, i = d.split("-"); return (p, int(i))
 for d in sorted(os.listdir(os.path.join(ROOT, "seeded")), key=key):
@@ -13,6 +25,12 @@ for d in sorted(os.listdir(os.path.join(ROOT, "seeded")), key=key):
     title = title.replace("|", "/")[:120]
     n += 1
     ok = r.get("exit") == 1
+    pp, ii = d.split("-"); rd = round_of(pp, int(ii))
+    rounds[rd][0] += 1
+    nt = r.get("note", "")
+    if any(k in nt for k in ("first run", "first attempt", "not a sequential", "not reachable", "needs a harvest", "race inside", "check catches it")):
+        rounds[rd][1] += 1
+    rounds[rd][2] += ok
     c += ok
     note = r.get("note", "")
     oth = r.get("other_checks", {})
@@ -20,6 +38,13 @@ for d in sorted(os.listdir(os.path.join(ROOT, "seeded")), key=key):
     res = ("yes: " + ", ".join(r.get("violation_classes", []))) if ok else (("no; " + "; ".join(othc)) if othc else ("NO" if r else "not run"))
     c2 = globals().get("c2", 0) + (1 if (not ok and othc) else 0)
     rows.append(f"| {d} | {m['property']} | {title} | {res}{' — ' + note if note else ''} |")
+import sys
+if "--rounds" in sys.argv:
+    print("| round | changes kept | missed by the first run of their property's check | caught by their property's check now |")
+    print("|---|---|---|---|")
+    for k in sorted(rounds):
+        print(f"| {k} | {rounds[k][0]} | {rounds[k][1]} | {rounds[k][2]} |")
+    sys.exit(0)
 print("| id | property | change (first line of its README) | caught by `./check <property> quick` |")
 print("|---|---|---|---|")
 print("\n".join(rows))
